@@ -78,6 +78,7 @@ type Step struct {
 	// aggchain-prover flow: what the scripted prover answers during this tick for a request (lastProven, requestedEnd),
 	// with f = lastProven+1, t = requestedEnd: 0 EndBlock = t | 1 f + (t-f)/2 | 2 f | 3 t+1 (outside) | 4 f-1 (outside) | 5 error
 	Rule int    `json:"rule,omitempty"`
+	B    uint64 `json:"b,omitempty"`  // l2reorg: first reorged L2 block (the bridge syncer's Reorg(b))
 	ID   uint64 `json:"id,omitempty"` // move: certificate (order of acceptance by the Agglayer, from 0)
 	St   int    `json:"st,omitempty"` // move: target status 0 Pending 1 Proven 2 Candidate 3 InError 4 Settled
 }
@@ -153,6 +154,9 @@ type StepObs struct {
 	Err    string   `json:"err,omitempty"`   // class of the error the loop recorded (information only)
 	Recov  string   `json:"recov,omitempty"` // restart / recovery attempt: "ok" | "refused"
 	BlkErr string   `json:"blk_err,omitempty"`
+	// l2reorg: the reorg was applied. It is NOT applied (a no-op step) when it would drop a block that a certificate which is
+	// not InError covers, or a block at or below StartL2Block: the properties say nothing about such histories
+	Applied bool `json:"applied,omitempty"`
 }
 type Out struct {
 	In       In        `json:"in"`
@@ -509,7 +513,48 @@ func run(in In, n int) (out Out) {
 		}
 		return r.Hash
 	}
+	l2reorg := func(b uint64, agg *fakeAgg) bool {
+		if b <= in.StartBlock || b == 0 {
+			return false
+		}
+		for _, c := range agg.certs {
+			if c.status == agglayertypes.InError {
+				continue
+			}
+			m, err := aggsendertypes.NewCertificateMetadataFromHash(c.meta)
+			if err != nil {
+				return false
+			}
+			if b <= m.FromBlock+uint64(m.Offset) {
+				return false
+			}
+		}
+		if err := bridgesync.VerifReorg(ctx, bs, b); err != nil {
+			panic(err)
+		}
+		keep := dcs[:0:0]
+		for _, x := range dcs {
+			if x.num < b {
+				keep = append(keep, x)
+			}
+		}
+		dcs = keep
+		synced, curDC = 0, -1
+		if n := len(dcs); n > 0 {
+			synced, curDC = dcs[n-1].num, dcs[n-1].dc
+		}
+		return true
+	}
 	processBlock := func(s Step) string {
+		// deposit counts continue the tree as it is NOW (after an L2 reorg the generated numbering no longer applies); the
+		// effective counts are written back into the case
+		for i := range s.Evs {
+			if s.Evs[i].T == "b" {
+				curDC++
+				s.Evs[i].DC = uint32(curDC)
+			}
+		}
+		curDC -= int64(func() int { n := 0; for _, e := range s.Evs { if e.T == "b" { n++ } }; return n }())
 		num := synced + s.Skip + 1
 		blk := aggsync.Block{Num: num, Hash: common.BigToHash(new(big.Int).SetUint64(num + 1000))}
 		for i, e := range s.Evs {
@@ -674,6 +719,8 @@ func run(in In, n int) (out Out) {
 			tick(s, true, &so)
 		case "status":
 			tick(s, false, &so)
+		case "l2reorg":
+			so.Applied = l2reorg(s.B, agg)
 		case "restart":
 			so.Recov = restart(s.Lost)
 		case "move":
